@@ -43,6 +43,7 @@ DEVS = [  # cfg number, switch, clauses that own it
     (5, "DEV_RowTwice", {"Inv_RowPerBar"}),
     (6, "DEV_PriceLast", {"Inv_RowPerBar"}),
     (7, "DEV_RefreshAlways", {"Prop_Refresh2"}),
+    (8, "DEV_NotifyIteratesCopy", {"Inv_NotifyOnce"}),
 ]
 DEMANDED = ("BarsInOrder", "PhaseOrder", "Stamp", "NotifyOnce", "RowPerBar")
 FIELDS = ("e", "m", "ts", "f", "k", "a", "r", "n", "px")
@@ -92,14 +93,18 @@ def price_at(t: int) -> int:
 def script_from_hist(events):
     """Derive the script (ops per hook, trigger answers, records emitted by updates) from a spec event sequence."""
     ops, fire, out, emit = {}, [], [], {}
-    bar, hook = -1, None
+    bar, hook, nntf = -1, None, 0
     for ev in events:
         e = ev["e"]
         if e == "init":
             hook = "init"
         elif e == "bb":
             bar += 1
+            nntf = 0
             hook = f"bb:{bar}"
+        elif e == "ntf":
+            nntf += 1
+            hook = f"ntf:{bar}:{nntf}"     # operations issued inside notify() of the nntf-th notification of the bar
         elif e == "do":
             hook = f"do:{bar}:{ev['m']}"
         elif e == "mopen":
@@ -138,7 +143,7 @@ def random_script(c, rnd: random.Random, density: float, emit=True):
     hooks = ["init"]
     for b in range(nb):
         hooks += [f"bb:{b}", f"ob:{b}", f"ab:{b}"] + [f"do:{b}:{i}" for i in range(1, nt + 1)] \
-                 + [f"mopen:{b}:{m}" for m in range(1, nm + 1)]
+                 + [f"mopen:{b}:{m}" for m in range(1, nm + 1)] + [f"ntf:{b}:{j}" for j in (1, 2)]
         for i in range(1, nt + 1):
             if rnd.random() < 0.5:
                 fire.append(f"{b}:{i}")
@@ -264,6 +269,7 @@ def _sim():
             self.fire, self.outs = set(script["fire"]), set(script["out"])
             self.events = []
             self.bar = -1
+            self.nntf = 0
             self.started = False
             self.act = None
             self.markets = []
@@ -311,6 +317,7 @@ def _sim():
         def before_bar(self, snapshot):
             r = self.rec
             r.bar += 1
+            r.nntf = 0
             r.log(E("bb", ts=sim.to_min(snapshot.timestamp), n=len(self.account_status)))
             r.run_ops(f"bb:{r.bar}")
 
@@ -329,6 +336,8 @@ def _sim():
             ident = next((i + 1 for i, a in enumerate(r.act.actions) if a is action), 0)
             r.log(E("ntf", m=ident, ts=sim.to_min(action.timestamp) if action.timestamp is not None else -1,
                     n=len(self.account_status)))
+            r.nntf += 1
+            r.run_ops(f"ntf:{r.bar}:{r.nntf}")
 
         def finalize(self):
             self.rec.log(E("fin", n=len(self.account_status)))
@@ -580,12 +589,30 @@ def validate_traces(chk: Check, traces, label, chunks=8, timeout=1500):
     return verdicts, results
 
 
+CORE = VERIF / "spec" / "trace" / "Trace_BarLoopCore.tla"
+
+
+def core_pass(chk: Check, traces):
+    """Whole-trace evaluation of the demanded clauses (Trace_BarLoopCore) for traces the stepwise validation rejected with a clause
+    beyond the statement: {tid: first failing demanded clause or ''}."""
+    if not traces:
+        return {}
+    f_in = chk.tmp / f"traces_core_{len(traces)}_{id(traces)}.ndjson"
+    with open(f_in, "w") as f:
+        for tid, c, events in traces:
+            f.write(json.dumps({"tid": tid, "c": cfg_json(c), "ev": events}, separators=(",", ":")) + "\n")
+    res = tlc.run(CORE, CORE.with_suffix(".cfg"), chk.tmp, workers=1, timeout=1500, jvm=("-Xmx2g",), env={"C05_TRACES": str(f_in)})
+    out = tlc.printed(res.output, "core_verdicts")
+    f_in.unlink()
+    return {int(t): v for t, v in out}
+
+
 def clause_of(verdict: str) -> str:
     return verdict.split(":", 1)[0].strip()
 
 
-def judge(chk: Check, leg, tid, c, script, events, err, verdict, exp_events=None):
-    """Turn one validated trace into counts / violations."""
+def judge(chk: Check, leg, tid, c, script, events, err, verdict, exp_events=None, core=None):
+    """Turn one validated trace into counts / violations.  core = verdict of the whole-trace second pass (info-rejected traces)."""
     mix = "+".join(("H" if m["h"] else "A") for m in c["mk"])
     cls = f"iv{c['iv']}|{mix}"
     replay = {"kind": "script", "config": c, "script": script}
@@ -605,6 +632,13 @@ def judge(chk: Check, leg, tid, c, script, events, err, verdict, exp_events=None
         if cl.startswith("info/"):
             chk.count(cl)
             chk.extra.setdefault("info_mismatches", []).append(text[:400]) if len(chk.extra.get("info_mismatches", [])) < 10 else None
+            if core:      # the statement's own clauses, evaluated on the whole trace
+                chk.violation(f"Actuator.run|{clause_of(core)}|{cls}",
+                              f"{leg}: the recorded run violates {core} (whole-trace pass; the stepwise validation stopped at event "
+                              f"#{verdict['l'] + 1}: {v})" + (f" (run raised {err})" if err else "") + f"; config {cfg_json(c)} script {script}",
+                              {**replay, "verdict": core})
+            elif err:
+                chk.violation(f"Actuator.run|raises|{cls}", f"{leg}: run raised {err}; config {cfg_json(c)} script {script}", replay)
         else:
             chk.violation(f"Actuator.run|{cl}|{cls}", text, {**replay, "verdict": v, "event_no": verdict["l"] + 1})
     elif err:
@@ -767,8 +801,8 @@ def _run(chk: Check) -> int:
     from .. import c05_real
     real_cases = c05_real.cases(rnd, quick)
     for rc in real_cases:
-        c = c05_real.config(rc["kind"], rc["F"], len(rc["hist"]))
-        cases.append(("markets", c, {"real": rc, "ops": {"real": [[rc["kind"], rc["script"]]]}, "fire": [], "out": [], "emit": {}}, None))
+        c = c05_real.mix_config(rc) if rc["kind"] == "mix" else c05_real.config(rc["kind"], rc["F"], len(rc["hist"]))
+        cases.append(("markets", c, {"real": rc, "ops": {"real": [[rc["kind"], rc.get("script", 0)]]}, "fire": [], "out": [], "emit": {}}, None))
     # 5. execute every case with the real Actuator.run
     runs = run_many([(c, s) for _, c, s, _ in cases])
     traces = [(tid, cases[tid][1], runs[tid][0]) for tid in range(len(cases))]
@@ -781,10 +815,24 @@ def _run(chk: Check) -> int:
          "distinct": sum(r.distinct for r in vres), "invocations": len(vres), "wall_s": round(max(r.wall_s for r in vres), 1)})
     nontrivial = set()
     nevents = 0
+    info_rejected = [t for t in traces if verdicts[t[0]]["verdict"] != "ok" and clause_of(verdicts[t[0]]["verdict"]).startswith("info/")]
+    core = core_pass(chk, info_rejected)
+    chk.extra["whole_trace_second_pass"] = len(info_rejected)
+    # soundness cross-check of the second pass: a trace the stepwise validation accepts must satisfy the whole-trace clauses too
+    accepted = [t for t in traces if verdicts[t[0]]["verdict"] == "ok"]
+    if quick and not os.environ.get("VERIF_C05_CORE_ALL"):
+        accepted = rnd.sample(accepted, min(300, len(accepted)))
+    parts = [accepted[i::8] for i in range(8) if accepted[i::8]]
+    with ThreadPoolExecutor(max_workers=8) as ex:
+        for part in ex.map(lambda p_: core_pass(chk, p_), parts):
+            bad = {t: v for t, v in part.items() if v}
+            if bad:
+                raise RuntimeError(f"Trace_BarLoopCore rejects traces that Trace_BarLoop accepts: {list(bad.items())[:3]}")
+    chk.extra["whole_trace_pass_cross_checked_on_accepted_traces"] = len(accepted)
     for tid, (leg, c, script, exp) in enumerate(cases):
         events, err = runs[tid]
         nevents += len(events)
-        judge(chk, leg, tid, c, script, events, err, verdicts[tid], exp)
+        judge(chk, leg, tid, c, script, events, err, verdicts[tid], exp, core.get(tid))
         if script["ops"] or script["emit"] or script["fire"]:
             nontrivial.add(json.dumps([cfg_json(c), script], sort_keys=True))
         if len(chk.samples) < 4 and script["ops"] and (leg != "enumerated" or len(chk.samples) < 2):
@@ -862,6 +910,7 @@ def replay(chk: Check, path: str) -> int:
     c, script = r["config"], r["script"]
     events, err = run_script(c, script)
     verdicts, _ = validate_traces(chk, [(0, c, events)], "replay", chunks=1)
-    judge(chk, "replay", 0, c, script, events, err, verdicts[0])
+    core = core_pass(chk, [(0, c, events)]) if clause_of(verdicts[0]["verdict"]).startswith("info/") else {}
+    judge(chk, "replay", 0, c, script, events, err, verdicts[0], None, core.get(0))
     print("verdict:", verdicts[0])
     return chk.finish("replay of one (configuration, script)")
